@@ -82,7 +82,7 @@ def main():
     tier = core.tier()
     rnd = random.Random(core.seed())
     cases = own_cases(tier)
-    skip = {'repanic', 'panic_in_defer', 'nil_map_eval_order', 'copy_range_value'}        # known findings of C07/C08 (present with and without -m)
+    skip = {'repanic', 'panic_in_defer', 'nil_map_eval_order', 'copy_range_value', 'panic_through_suspending_defer'}        # known findings of C07/C08/C02 (present with and without -m)
     c06 = load('C06').build_cases(tier, rnd)
     want = [c for c in c06 if c.tag.endswith('_vv') or '_by_uint8' in c.tag or c.tag.startswith('conv_') or c.tag.startswith('nest_')]
     want = [c for c in want if 'int64' not in c.tag or c.tag.startswith(('add_', 'sub_', 'eq_', 'lt_', 'conv_'))]
